@@ -386,15 +386,25 @@ func (w *c01worker) runProgram(s0 ref.State, base *mem.Image, stale bool, g *vf.
 		mr.ResetStep()
 		mp.ResetStep()
 		ma.ResetStep()
+		// an interrupt request arriving between two instructions: the interpreters enter the handler and
+		// execute its first instruction in the same Step
+		irq := sr.P&0x04 == 0 && g.Intn(48) == 0
+		if irq {
+			ref.EnterIRQ(&sr, mem.RefMem{M: mr})
+			w.rig.prim.TriggerIRQ()
+			w.rig.alt.TriggerIRQ()
+			w.cells["interrupt:irq-between-instructions"]++
+		}
+		entered := sr // (the state in which the executed instruction is fetched)
 		inf := ref.Step(&sr, mem.RefMem{M: mr})
-		if hazard(mr, inf, pre) {
+		if hazard(mr, inf, entered) {
 			w.extra["skipped_hazard"]++
 			return steps, "hazard"
 		}
 		rp := w.rig.stepPrim(mp)
 		ra := w.rig.stepAlt(ma)
 		ctx := func() interface{} {
-			return map[string]interface{}{"program_start": s0.String(), "image_seed": base.Seed, "step": steps, "pre_step_state": pre.String(),
+			return map[string]interface{}{"program_start": s0.String(), "image_seed": base.Seed, "step": steps, "pre_step_state": pre.String(), "irq_taken_first": irq,
 				"instruction": fmt.Sprintf("%02x %s %s", inf.Op, ref.MnemNames[inf.M], ref.ModeNames[inf.Mode]), "overlay_bytes": len(base.Ov)}
 		}
 		name := ref.MnemNames[inf.M] + " " + ref.ModeNames[inf.Mode]
